@@ -8,7 +8,9 @@ TECHNIQUE = ('AST class-graph analysis: visitor-dispatch resolution, child-list 
              'tree-builder interpreter (rules/pC01.py TB): rewriting functions / code generators are run by an interpreter of the checker on symbolic nodes (unknown node '
              'facts fork both ways) and the built tree / recorded C skeleton is given a reference semantics that is evaluated over the COMPLETE finite domain of its tests '
              '(MINMAX: all outcomes of the pairwise comparisons; INPLACE: all kinds of target operands; SKEL: all truth assignments and loop-body outcomes); '
-             'RESTORE: path-sensitive pairing (save / change / write back) over every visitor method; PARSEROLE: parse order of locals vs the role order of the grammar production')
+             'RESTORE: path-sensitive pairing (save / change / write back) over every visitor method; PARSEROLE: parse order of locals vs the role order of the grammar production; '
+             'ARGBIND: the argument-unpacking generator of DefNodeWrapper is run by the TB interpreter on every signature of a finite family, the emitted C is parsed and executed on a machine model '
+             '(helpers by contract) for every call shape and compared with the binding algorithm of the language reference; INTEQ: the C evaluator of C19-LONGCMP on both return conventions of PyLongCompare')
 DECIDES = ('T1: every attribute a node class drives through a tree phase is listed in its child_attrs/subexprs; '
            'T2: every listed child is a defined attribute; V1: every visit_<Class> handler of every tree visitor names an existing node class '
            '(dispatch is by class name); V2: every transform handler returns a node on all paths (None deletes the node); '
@@ -31,7 +33,13 @@ DECIDES = ('T1: every attribute a node class drives through a tree phase is list
            'the grammar gives to their roles; '
            'SKEL: the C control skeleton emitted by IfStatNode/IfClauseNode, WhileStatNode, CondExprNode and BoolBinopNode/BoolBinopResultNode (1..3 clauses, with/without '
            'else, 10 and/or shapes up to four operands, object and C operands) executes the children in the order - and yields the operand - the language reference requires, '
-           'for every truth assignment and every loop-body outcome (normal / break / continue), and every goto has a placed label.')
+           'for every truth assignment and every loop-body outcome (normal / break / continue), and every goto has a placed label; '
+           'ARGBIND: for every signature with 0..1 positional-only, 0..2 positional-or-keyword and 0..3 keyword-only parameters (at most four; every legal placement of defaults, every order of required / '
+           'optional keyword-only parameters; with / without *args, **kw, self) the C emitted by DefNodeWrapper.generate_tuple_and_keyword_parsing_code and its helper emitters binds EVERY call shape '
+           '(0..max+1 positional arguments x every subset of {parameter names, one unknown name} as keywords) like the language reference: the same value reaches the same parameter (slot order of values[], '
+           'keyword-name table, `values + K` base, positional count, defaults, final assignment agree), *args / **kw get the same content, TypeError is raised for exactly the same calls, the name reported as '
+           'missing is a missing required keyword-only parameter, and no index leaves values[] / the name table / the argument vector; '
+           'INTEQ: all eight PyLongCompare helpers (Eq/Ne x operand order x int / object result) answer like Python for every class of the object operand relative to the constant (procedure of C19-LONGCMP).')
 NOT_DECIDED = ('that the generated C computes what CPython computes for any program.  UNPACK does not decide reference counting, the iterator protocol branch '
                '(order is the iteration order), that left / starred / right partition the targets, nor error messages.  The TB rules model type analysis / coercion methods '
                '(analyse_types, coerce_to, ...) as returning a node that evaluates the same operands, and take the evaluation order of IndexNode / AttributeNode / binop operands '
@@ -39,7 +47,10 @@ NOT_DECIDED = ('that the generated C computes what CPython computes for any prog
                'results; loops are unrolled to two iterations; ForInStatNode, try/with statements and comprehensions are not modelled.  PARSEROLE does not decide roles built from '
                'list slices or helper results (cascaded assignments, call arguments) nor operator precedence.  Not decided at all (brainstormed mutants left unreported): which '
                'transforms the pipeline must contain and in which order (depends on which program features occur), the closure marking protocol of MarkClosureVisitor '
-               '(which handler must propagate needs_closure), scope lookup rules of Symtab (nonlocal / global resolution).')
+               '(which handler must propagate needs_closure), scope lookup rules of Symtab (nonlocal / global resolution).  ARGBIND takes the contracts of __Pyx_ParseKeywords / __Pyx_ArgRef_* / __Pyx_ArgsSlice_* as given '
+               '(C24-IDX, C24-KW2, C24-UNKNOWN decide the C side), models Python-object parameters only (C-typed parameters convert in generate_arg_assignment), the used-**kw case only, signatures of at most four '
+               'parameters (the generator treats the lists uniformly; the transfer to longer signatures is not decided), not the no-argument / *args-only fast paths (generate_stararg_copy_code), reference '
+               'counting of values[], nor error message texts.  INTEQ inherits the limits of C19-LONGCMP (casts are value-preserving in its evaluator: a float operand truncated by an integer cast is not seen).')
 MUTATIONS = [   # (file, single edit on a scratch copy, rule that reported it) â€” C01-UNPACK
     ('Cython/Compiler/ExprNodes.py', "seed C01a: generate_starred_assignment_code walks the trailing targets forwards but keeps the index len-(i+1)", 'C01-UNPACK fetch'),
     ('Cython/Compiler/ExprNodes.py', "generate_starred_assignment_code: PyList_GET_ITEM(.., len-(i+1)) -> len-i", 'C01-UNPACK fetch'),
@@ -60,6 +71,11 @@ MUTATIONS = [   # (file, single edit on a scratch copy, rule that reported it) â
     ('Cython/Compiler/Parsing.py', "parse-{condexpr,binop,dictitem,walrus,assert,raise,while-else,cmp}-swap", 'C01-PARSEROLE'),
     ('Cython/Compiler/ExprNodes.py, Nodes.py', "condexpr-gen-swap, boolop-{sense-flip,operator-flip,labels-not-restored}, if-else-fallthrough, ifclause-goto-condition, "
                                                "while-{cond-negation,else-after-break,continue-label}", 'C01-SKEL'),
+    ('Cython/Compiler/Nodes.py', "seed C01i / argbind-*: keyword-name table in declaration order; keyword-only slots optional-first; `values` instead of `values + K`; kwd_pos_args counts positional-only; "
+                                 "keyword-only defaults skipped; required-keyword loop range; `case i:`; *args sliced from min_positional; fixed arity checked with `<`; pykwdlist[i] for the missing name", 'C01-ARGBIND'),
+    ('Cython/Utility/Optimize.c', "seed C01j / inteq-*: sign test of a positive constant dropped; negative constant not negated; zero test inverted; object-result branches of return_compare swapped", 'C01-INTEQ'),
+    ('not reported (declined)', "inteq-float-truncated ((long) cast of the float operand): the shared C evaluator treats casts as value-preserving", 'none'),
+    ('behaviour-preserving (all silent)', "ok-argbind-names-loop-renamed, ok-argbind-helper-extracted, ok-argbind-values-base-early-return-style, ok-inteq-sign-tests-rewritten", 'silent'),
     ('not reported (declined)', "pipeline-drop-decorators, pipeline-closure-order, closure-mark-lambda, nonlocal-lookup-here: see NOT_DECIDED", 'none'),
     ('behaviour-preserving (all silent)', "ok-minmax-rewrite (helper method extracted, comprehension, reversed()), ok-inplace-rewrite (early returns, reversed()), ok-parse-rename "
                                           "(early return, keyword order), ok-closure-restore-finally (try/finally), ok-if-goto-rewrite, ok-while-rewrite (f-string), "
@@ -68,7 +84,8 @@ MUTATIONS = [   # (file, single edit on a scratch copy, rule that reported it) â
 
 
 def run(ctx):
-    from ..rules import gen, keyerr, sC01, pC01
+    from ..rules import gen, keyerr, sC01, pC01, s7C01, dD9
     # pC01.rule_inplace(ctx, pending=True) = C01-INPLACE-NAME: the owner NAME / C-level attribute path of an in-place target is read again for the store (known finding K14)
     return [tree.rule_T1(ctx), tree.rule_T2(ctx), tree.rule_V1_visit(ctx), tree.rule_V2(ctx)] + gen.label_rules(ctx) + [
-        keyerr.rule_keyerror_args(ctx), sC01.rule_unpack(ctx), pC01.rule_minmax(ctx), pC01.rule_inplace(ctx), pC01.rule_inplace(ctx, pending=True), pC01.rule_restore(ctx), pC01.rule_parserole(ctx), pC01.rule_skel(ctx)]
+        keyerr.rule_keyerror_args(ctx), sC01.rule_unpack(ctx), pC01.rule_minmax(ctx), pC01.rule_inplace(ctx), pC01.rule_inplace(ctx, pending=True), pC01.rule_restore(ctx), pC01.rule_parserole(ctx), pC01.rule_skel(ctx), s7C01.rule_argbind(ctx), s7C01.rule_inteq(ctx),
+        dD9.rule_negcmp(ctx)]      # C01-NEGCMP (rules/dD9.py), armed after the repair d92ac965e
